@@ -72,6 +72,45 @@ func msg(secret int, covert string) []byte {
 	return vfix.Msg{Secret: vfix.Secret(secret), Transport: pb.TransportType_Min, V4: true, Gen: 1, LibVer: 4, Covert: covert, Source: pb.RegistrationSource_API, Addr: []byte{203, 0, 113, 77}}.Bytes()
 }
 
+func msgT(secret int, tt pb.TransportType, covert string) []byte {
+	return vfix.Msg{Secret: vfix.Secret(secret), Transport: tt, V4: true, Gen: 1, LibVer: 4, Covert: covert, Source: pb.RegistrationSource_API, Addr: []byte{203, 0, 113, 77}}.Bytes()
+}
+
+// connAll is a connection handler that looks at everything the lookup on a phantom hands out (what every wrapping
+// transport does with the result): all of it must be validated and carry a checked covert address.
+func (w *world) connAll(name string, secret int, times int) body {
+	probe, err := w.rm.VerifParseRegMessage(msg(secret, "93.184.216.34:443"))
+	if err != nil || len(probe) != 1 {
+		vh.Fatal("probe registration")
+	}
+	ph := probe[0].PhantomIp
+	var ops []func()
+	for i := 0; i < times; i++ {
+		i := i
+		ops = append(ops, func() {
+			regs := w.rm.GetRegistrations(ph)
+			var ids []string
+			for id, r := range regs {
+				d := r.(*lib.DecoyRegistration)
+				ids = append(ids, fmt.Sprintf("%x", id[:4]))
+				if !d.Valid {
+					w.bad = "connection handler saw a registration that is not validated"
+				}
+				if !permitted(d.Covert) {
+					w.bad = fmt.Sprintf("connection handler was handed a registration whose covert %q was never checked / is forbidden", d.Covert)
+				}
+			}
+			sort.Strings(ids)
+			w.lookups = append(w.lookups, fmt.Sprintf("%s#%d=%v", name, i, ids))
+		})
+	}
+	return body{name, func() {
+		for _, o := range ops {
+			o()
+		}
+	}, ops}
+}
+
 func newWorld() *world {
 	w := &world{}
 	w.rm = vfix.Manager(conf(), sel, &tester{}, vfix.Transports{Min: true, Prefix: true}, nil)
@@ -235,6 +274,33 @@ func scenarios() map[string]scenario {
 			return w
 		}})
 	}
+	// S8: lookups on a phantom while a second registration (same secret, other transport: same phantom) is tracked,
+	// validated and an old one is swept - with every lock release a scheduling point too (vsync.ReleasePoints), so that a
+	// lookup result which still refers to the registry's own maps is seen being written under the handler's feet
+	add(scenario{"S8:lookup-all+second-transport@release-points", func() *world {
+		w := newWorld()
+		for _, r := range mustParse(w.rm, msg(1, "93.184.216.34:443")) {
+			w.rm.VerifIngest(r)
+		}
+		w.anns = w.anns[:0]
+		w.bodies = []body{w.worker("worker-prefix", msgT(1, pb.TransportType_Prefix, "93.184.216.34:443")), w.connAll("conn", 1, 2)}
+		return w
+	}})
+	add(scenario{"S8:lookup-all+sweeper@release-points", func() *world {
+		// (one registration on the phantom has expired, the other is fresh: the sweeper removes registrations one by one,
+		// each under its own write lock, so a sweep of two would legitimately be seen half done by a lookup)
+		w := newWorld()
+		for _, r := range mustParse(w.rm, msg(1, "93.184.216.34:443")) {
+			w.rm.VerifIngest(r)
+		}
+		vsched.Advance(10*time.Minute + time.Second)
+		for _, r := range mustParse(w.rm, msgT(1, pb.TransportType_Prefix, "93.184.216.34:443")) {
+			w.rm.VerifIngest(r)
+		}
+		w.anns = w.anns[:0]
+		w.bodies = []body{{name: "sweeper", f: func() { w.rm.RemoveOldRegistrations() }}, w.connAll("conn", 1, 2)}
+		return w
+	}})
 	// S3c: the unused lifetime passes and the sweeper runs while two workers ingest the same registration (each may be
 	// parked in its liveness probe at that moment): whatever is tracked afterwards is announced once per lifetime
 	add(scenario{"S3c:two-workers+lifetime-passes+sweeper", func() *world {
@@ -688,6 +754,7 @@ func main() {
 		vh.Fatal("unknown scenario %q", name)
 	}
 	pB := -1
+	vsync.ReleasePoints = strings.HasPrefix(name, "S8")
 	if strings.HasPrefix(name, "S5") {
 		pB = 2
 		if a.Thorough() {
